@@ -85,7 +85,7 @@ func expectedEvents(m *kit.Model, tx kit.TxSpec) (evs []kit.Event, commits bool,
 				ignoreKidIDs[cc.Name+"|"+op.ID] = true
 			}
 		}
-		styles := append(append(append([]string{}, kit.ListenerStyles...), "listener-async"), kit.MultiStyles...)
+		styles := append(append(append([]string{}, kit.ListenerStyles...), "listener-async", "listener-async-typed"), kit.MultiStyles...)
 		for _, style := range styles {
 			info := kit.MEntInfo(ent, "")
 			if strings.HasPrefix(style, "id-listener") {
@@ -129,6 +129,23 @@ func runC08(h kit.History) kit.Result {
 	w.Stores["things"].AddListener(func(e boltz.Entity) {
 		rec.Add(kit.Event{Store: "things", Style: "listener-async", Type: "?", ID: e.GetId()})
 	}, boltz.EntityCreatedAsync, boltz.EntityUpdatedAsync, boltz.EntityDeletedAsync)
+	// and one asynchronous registration per change type, so that each knows which change it reports
+	asyncTypes := []struct {
+		t    boltz.EntityEventType
+		name string
+	}{{boltz.EntityCreatedAsync, "created"}, {boltz.EntityUpdatedAsync, "updated"}, {boltz.EntityDeletedAsync, "deleted"}}
+	for _, at := range asyncTypes {
+		at := at
+		w.Stores["things"].AddListener(func(e boltz.Entity) {
+			rec.Add(kit.Event{Store: "things", Style: "listener-async-typed", Type: at.name, ID: e.GetId()})
+		}, at.t)
+		for _, cc := range h.Cfg.Children {
+			name := cc.Name
+			w.Kids[name].AddEntityIdListener(func(id string) {
+				rec.Add(kit.Event{Store: name, Style: "listener-async-typed", Type: at.name, ID: id})
+			}, at.t)
+		}
+	}
 	for _, cc := range h.Cfg.Children {
 		name := cc.Name
 		w.Kids[name].AddListener(func(e boltz.Entity) {
@@ -178,7 +195,7 @@ func runC08(h kit.History) kit.Result {
 		// asynchronous listeners: wait (bounded) until the expected number has arrived
 		wantAsync := 0
 		for _, e := range want {
-			if e.Style == "listener-async" && !ignoreKid[e.Store+"|"+e.ID] {
+			if strings.HasPrefix(e.Style, "listener-async") && !ignoreKid[e.Store+"|"+e.ID] {
 				wantAsync++
 			}
 		}
@@ -186,7 +203,7 @@ func runC08(h kit.History) kit.Result {
 		for {
 			n := 0
 			for _, e := range rec.Snapshot() {
-				if e.Style == "listener-async" && !ignoreKid[e.Store+"|"+e.ID] {
+				if strings.HasPrefix(e.Style, "listener-async") && !ignoreKid[e.Store+"|"+e.ID] {
 					n++
 				}
 			}
@@ -214,6 +231,8 @@ func runC08(h kit.History) kit.Result {
 			}
 			if e.Style == "listener-async" {
 				gotKeys = append(gotKeys, e.Store+"|"+e.Style+"|"+e.ID)
+			} else if e.Style == "listener-async-typed" {
+				gotKeys = append(gotKeys, e.Store+"|"+e.Style+"|"+e.Type+"|"+e.ID)
 			} else {
 				k := e.Key()
 				if e.Info != "" {
@@ -228,6 +247,8 @@ func runC08(h kit.History) kit.Result {
 			}
 			if e.Style == "listener-async" {
 				wantKeys = append(wantKeys, e.Store+"|"+e.Style+"|"+e.ID)
+			} else if e.Style == "listener-async-typed" {
+				wantKeys = append(wantKeys, e.Store+"|"+e.Style+"|"+e.Type+"|"+e.ID)
 			} else {
 				k := e.Key()
 				if e.Info != "" {
